@@ -457,6 +457,19 @@ def rbody_http_body_reaches_the_decoders_whole(ctx):
     c19.r2_chunk_independence(ctx)
 
 
+def robj_is_object_looks_at_the_first_byte_only(ctx):
+    """generated servers pick the by-name or the positional decoder on `Params::is_object()`: that is `starts_with('{')`
+    and nothing else. An extra clause (`&& json != "{}"`) sends `{}` to the positional decoder, which rejects anything that
+    does not start with `[` - a plain parse of `{}` into an all-optional signature succeeds."""
+    F, R = ctx.F, ctx.R
+    b = F.one(r"^jsonrpsee_types::params::Params::<'a>::is_object$")
+    R.fn(b)
+    calls = [c for x in F.nested(b) for c in x.calls if not c.exp]
+    sw = [c for c in calls if re.search(r"str>::starts_with$|impl str>::starts_with$", c.name() or "")]
+    cmp_ = [c for c in calls if re.search(r"PartialEq.*::(eq|ne)$|::ends_with$|::len$|::contains$|::is_empty$", c.name() or "")]
+    R.check(len(sw) == 1 and not cmp_, "C16.OBJ", "is_object:first-byte-only", "is_object() is starts_with('{')", "Params::is_object tests more than the first byte (%s): some object texts are sent to the positional decoder and answered -32602 although a plain parse accepts them" % sorted({short(c.name()) for c in cmp_}), "%s:%d" % (b.file, b.lo))
+
+
 def rext_request_wrappers_only_attach_extensions(ctx):
     """what the decoders hand on is what serde decoded: the server's request wrappers (deserialize_with_ext::{call,notif}::
     {from_slice,from_str}) decode and attach the connection's extensions - nothing else. A wrapper that also edits the
@@ -481,7 +494,7 @@ def rext_request_wrappers_only_attach_extensions(ctx):
     R.floor("C16.EXT", n, 4, "request wrappers of the server")
 
 
-LIB_RULES = [rext_request_wrappers_only_attach_extensions, rbody_http_body_reaches_the_decoders_whole, rraw_params_text_is_not_reparsed, rjudge_only_the_decoders_say_invalid_params, rplain_request_decoder, rrej_rejections_are_driven, r1_only_invalid_params, r2_poison_on_error, r3_exhaustion_table, r4_absent_params, rown_into_owned, rnext_reads_T, rws_separator_sees_no_whitespace, rone_is_one_array_parse]
+LIB_RULES = [robj_is_object_looks_at_the_first_byte_only, rext_request_wrappers_only_attach_extensions, rbody_http_body_reaches_the_decoders_whole, rraw_params_text_is_not_reparsed, rjudge_only_the_decoders_say_invalid_params, rplain_request_decoder, rrej_rejections_are_driven, r1_only_invalid_params, r2_poison_on_error, r3_exhaustion_table, r4_absent_params, rown_into_owned, rnext_reads_T, rws_separator_sees_no_whitespace, rone_is_one_array_parse]
 CONFIGS_QUICK = ["libs-all", "corpus"]
 CONFIGS_THOROUGH = ["libs-all", "facade-full", "corpus"]
 
